@@ -24,10 +24,10 @@ func ZZ_C18_RepeatedClaims() {
 	total := int64(0)
 	for i := 0; i < nv; i++ {
 		s := string(rune('0' + i))
-		oper := sdk.ValAddress(vrt.Bytes("oper"+s, 20))
-		for _, o := range env.staking.Vals {
-			vrt.Assume(!o.Oper.Equals(oper))
-		}
+		// concrete addresses: the order of two valoper strings is then the real bech32 text order (for symbolic
+		// addresses the engine abstracts it to an arbitrary order, which a native replay need not share); both
+		// lexicographic arrangements of the two claimers are covered because the claimers are chosen symbolically
+		oper := sdk.ValAddress(append(make([]byte, 19), byte(0x11*(i+1))))
 		p := int64(1 + vrt.Uint64Below("power"+s, 12))
 		total += p
 		env.staking.Vals = append(env.staking.Vals, zzVal{Oper: oper, Power: p, Bonded: true})
